@@ -294,3 +294,81 @@ Proof. repeat split; unfold semitones_to_rate; f_equal; apply B2SF_inj; vm_compu
       for every finite sample *)
 Lemma panned32_centre l r : panned l r (Z32 0) = (l, r) /\ panned l r (neg32 (Z32 0)) = (l, r).
 Proof. split; reflexivity. Qed.
+
+(** * binary32: hard left / hard right (and beyond: the panning is clamped) silence the other channel exactly *)
+
+Lemma Z32_m1_exact : B2R (Z32 (-1)) = -1 /\ is_finite_strict (Z32 (-1)) = true.
+Proof. split; [|reflexivity]. unfold Z32, of_Z.
+  pose proof (binary_normalize_correct 24 128 Hprec32 Hmax32 mode_NE (-1) 0 false) as C. cbv zeta in C.
+  assert (HF : F2R (Float radix2 (-1) 0) = -1) by (unfold F2R; simpl; lra).
+  rewrite round_generic in C; [|apply valid_rnd_N|].
+  2:{ change (SpecFloat.fexp 24 128) with (FLT_exp (-149) 24). apply generic_format_FLT. exists (Float radix2 (-1) 0); auto; cbn; lia. }
+  rewrite HF in C. rewrite Rlt_bool_true in C; [destruct C as (A & _); exact A|].
+  apply Rlt_le_trans with 2; [unfold Rabs; destruct (Rcase_abs (-1)); lra | change 2 with (bpow radix2 1); apply bpow_le; lia].
+Qed.
+Lemma Z32_p1_exact : B2R (Z32 1) = 1 /\ is_finite_strict (Z32 1) = true.
+Proof. split; [|reflexivity]. unfold Z32, of_Z.
+  pose proof (binary_normalize_correct 24 128 Hprec32 Hmax32 mode_NE 1 0 false) as C. cbv zeta in C.
+  assert (HF : F2R (Float radix2 1 0) = 1) by (unfold F2R; simpl; lra).
+  rewrite round_generic in C; [|apply valid_rnd_N|].
+  2:{ change (SpecFloat.fexp 24 128) with (FLT_exp (-149) 24). apply generic_format_FLT. exists (Float radix2 1 0); auto; cbn; lia. }
+  rewrite HF in C. rewrite Rlt_bool_true in C; [destruct C as (A & _); exact A|].
+  apply Rlt_le_trans with 2; [unfold Rabs; destruct (Rcase_abs 1); lra | change 2 with (bpow radix2 1); apply bpow_le; lia].
+Qed.
+
+(** a finite panning at or beyond hard left is clamped to exactly -1 (as a float), at or beyond hard right to 1 *)
+Lemma clamp_left p : is_finite p = true -> B2R p <= -1 -> clamp32 p (Z32 (-1)) (Z32 1) = Z32 (-1).
+Proof.
+  intros F H. destruct Z32_m1_exact as [B1 S1]. destruct Z32_p1_exact as [Bp Sp].
+  assert (Fm : is_finite (Z32 (-1)) = true) by reflexivity. assert (Fp : is_finite (Z32 1) = true) by reflexivity.
+  unfold clamp32, fclamp, flt, fgt. cbv zeta. rewrite (Bltb_correct _ _ p (Z32 (-1))) by assumption. rewrite B1.
+  destruct (Rlt_bool_spec (B2R p) (-1)) as [L|G].
+  - rewrite Bltb_correct by assumption. rewrite Bp, B1. rewrite Rlt_bool_false by lra. reflexivity.
+  - assert (E : B2R p = -1) by lra.
+    rewrite Bltb_correct by assumption. rewrite Bp, E. rewrite Rlt_bool_false by lra.
+    apply B2R_inj; [|exact S1|rewrite E, B1; reflexivity].
+    destruct p; try discriminate; [cbn in E; lra|reflexivity].
+Qed.
+Lemma clamp_right p : is_finite p = true -> 1 <= B2R p -> clamp32 p (Z32 (-1)) (Z32 1) = Z32 1.
+Proof.
+  intros F H. destruct Z32_m1_exact as [B1 S1]. destruct Z32_p1_exact as [Bp Sp].
+  assert (Fm : is_finite (Z32 (-1)) = true) by reflexivity. assert (Fp : is_finite (Z32 1) = true) by reflexivity.
+  unfold clamp32, fclamp, flt, fgt. cbv zeta. rewrite (Bltb_correct _ _ p (Z32 (-1))) by assumption. rewrite B1.
+  rewrite Rlt_bool_false by lra. rewrite Bltb_correct by assumption. rewrite Bp.
+  destruct (Rlt_bool_spec 1 (B2R p)) as [L|G]; [reflexivity|].
+  assert (E : B2R p = 1) by lra. apply B2R_inj; [|exact Sp|rewrite E, Bp; reflexivity].
+  destruct p; try discriminate; [cbn in E; lra|reflexivity].
+Qed.
+
+Definition mix_of (p' : f32) : f32 := mul32 (add32 p' (Z32 1)) half32.
+Lemma mix_left : sqrt32 (mix_of (Z32 (-1))) = B754_zero false /\ sqrt32 (sub32 (Z32 1) (mix_of (Z32 (-1)))) = Z32 1.
+Proof. split; apply B2SF_inj; vm_compute; reflexivity. Qed.
+Lemma mix_right : sqrt32 (mix_of (Z32 1)) = Z32 1 /\ sqrt32 (sub32 (Z32 1) (mix_of (Z32 1))) = B754_zero false.
+Proof. split; apply B2SF_inj; vm_compute; reflexivity. Qed.
+
+Lemma mul_zero_sqrt2 (x : f32) : is_finite x = true ->
+  exists s, mul32 (mul32 x (B754_zero false)) SQRT2_32 = B754_zero s.
+Proof.
+  intro F. destruct x as [s| | |s m e H]; try discriminate; eexists; apply B2SF_inj; cbn; reflexivity.
+Qed.
+
+Lemma nonzero_of_le p : B2R p <= -1 \/ 1 <= B2R p -> is_finite p = true -> eq32 p (Z32 0) = false.
+Proof.
+  intros H F. unfold eq32, feq. rewrite Beqb_correct; [|exact F|reflexivity].
+  change (B2R (Z32 0)) with 0. apply Req_bool_false. lra.
+Qed.
+
+Theorem panned32_hard_left l r p : is_finite p = true -> is_finite r = true -> B2R p <= -1 ->
+  fst (panned l r p) = mul32 (mul32 l (Z32 1)) SQRT2_32 /\ exists s, snd (panned l r p) = B754_zero s.
+Proof.
+  intros Fp Fr H. unfold panned. rewrite (nonzero_of_le p (or_introl H) Fp). cbv zeta.
+  rewrite (clamp_left p Fp H). fold (mix_of (Z32 (-1))). destruct mix_left as [-> ->]. cbn [fst snd].
+  split; [reflexivity|apply mul_zero_sqrt2, Fr].
+Qed.
+Theorem panned32_hard_right l r p : is_finite p = true -> is_finite l = true -> 1 <= B2R p ->
+  snd (panned l r p) = mul32 (mul32 r (Z32 1)) SQRT2_32 /\ exists s, fst (panned l r p) = B754_zero s.
+Proof.
+  intros Fp Fl H. unfold panned. rewrite (nonzero_of_le p (or_intror H) Fp). cbv zeta.
+  rewrite (clamp_right p Fp H). fold (mix_of (Z32 1)). destruct mix_right as [-> ->]. cbn [fst snd].
+  split; [reflexivity|apply mul_zero_sqrt2, Fl].
+Qed.
